@@ -6,7 +6,12 @@ Obligations
   C1         real Tokenizer (in-process, C and C++ mode) on the printed program == model `resolve` of the same program
   W          the corpus witnesses of F4 are discriminating: the pre-fix replay order (model `resolveOld`) differs from the
              specification on them (so the comparison would notice the defect coming back)
-  C2         (thorough) clang's referencedDecl for the same text == the SPECIFICATION `specProg` (validates the spec)
+  C2         clang's referencedDecl for the same text == the SPECIFICATION `specProg` (validates the spec)
+  T          statement shape of VariableMap::{enterScope,leaveScope,addVariable} and of every scope / addVariable / lookup site
+             of setVarIdPass1 with its guards == corpus/C08/setvarid_shape.json (fail closed on source changes)
+  L          link probes (outside the Lean model, sampled): Token::function / Token::variable of calls, members, namespace and
+             static members, lambda parameters == the declaration g++ selects (sizeof probes)
+  D          (thorough) the ids in `cppcheck --dump` == the ids read in-process
 P_impl       every linked name token of the real tokenizer carries the id of the declaration lexical scoping binds it to,
              and no two declarations share an id
 """
@@ -20,12 +25,16 @@ RULE = ("cases = scope programs (globals, prototypes, functions with parameters,
         "re-declarations in one scope, C++: ::x and condition declarations) printed as C or C++ text, each tracked name on its own "
         "line; non-trivial = some name is used after at least two of its declarations have been seen")
 EXPLANATION = ("Lean theorems (all programs of the modelled fragment, unbounded nesting): the undo-log symbol table driven by the "
-               "modelled setVarIdPass1 events resolves every name token exactly as lexical scoping does; declaration ids are pairwise "
-               "distinct. Tie: real Tokenizer::simplifyTokens1 in-process on printed programs (C and C++) vs the compiled model; "
-               "clang -ast-dump=json as oracle for the specification (thorough). Level is 'other' because the property quantifies "
-               "over all programs clang accepts; outside the model: struct/class members and member functions (setVarIdPass2), "
-               "namespaces, lambdas, templates, typedef names, structured bindings, function/overload linking "
-               "(SymbolDatabase, Scope::findFunction), declaration-recognition heuristics beyond the printed forms.")
+               "modelled setVarIdPass1 events resolves every name token exactly as lexical scoping does (partial: no enumerator hides a "
+               "visible variable, F8b); declaration ids are pairwise distinct in the model, and P_impl checks that on the real ids. Ties on "
+               "every run: real Tokenizer::simplifyTokens1 in-process on printed programs (C and C++) vs the compiled model; statement shape "
+               "of the VariableMap operations and their guards in setVarIdPass1 extracted from the source and compared fail-closed with "
+               "the reading the model encodes (T:setvarid-shape); clang -ast-dump=json as oracle for the specification; thorough: ids of "
+               "cppcheck --dump. Level is 'other' because the property quantifies over all programs clang accepts: calls / overloads, "
+               "struct members, static members, namespaces, using, lambdas have NO model and no theorem; they are only sampled (link "
+               "probes: Token::function / Token::variable after the SymbolDatabase vs g++ -fsyntax-only sizeof probes), which exposed "
+               "the findings F8c-F8g. Not even sampled: templates, typedef names, structured bindings, inheritance, ADL, default "
+               "arguments in ranking, setVarIdPass2 member functions defined outside the class.")
 THEOREMS = ["Cppcheck.VarMap.varmap_refines_partial", "Cppcheck.VarMap.varmap_refines", "Cppcheck.VarMap.varmap_enum_counterexample",
             "Cppcheck.VarMap.run_eq_srun_partial", "Cppcheck.VarMap.run_eq_srun_of_noGuse_partial", "Cppcheck.VarMap.run_guse_undeclared_counterexample",
             "Cppcheck.VarMap.resolve_eq_spec_partial", "Cppcheck.VarMap.resolve_enum_counterexample",
@@ -1787,6 +1796,12 @@ def run(ctx, res):
     rng = ctx.rng
     thorough = ctx.tier == "thorough"
     core.prove(ctx, res, MODULES, THEOREMS)
+    res.assumptions += [
+        "implProg (Model/ScopeProg.lean) is a hand reading of setVarIdPass1; guarded by T:setvarid-shape and the in-process correspondence",
+        "clang 14 (specification oracle) and g++ 12 (link probes) implement C/C++ name lookup and overload resolution correctly on the generated forms",
+        "the printer (program -> C/C++ text) and the encoder (program -> driver tokens) in c08.py describe the same program",
+        "calls/overloads, members, namespaces, lambdas: sampled only (link probes), no theorem",
+    ]
     check_shape(ctx, res)
     drv = ctx.driver("drv_c08")
     exe = harness_exe(ctx)
